@@ -79,6 +79,12 @@ func (env *Env) AddFunc(pkgPath, funcName string, f *Func) {
 	env.addFunc(funcKey{qualifier: pkgPath, name: funcName}, f)
 }
 
+// RemoveFunc unbinds the `$pkgPath.$funcName` symbol.
+// The code that was compiled before keeps calling the function it was bound to.
+func (env *Env) RemoveFunc(pkgPath, funcName string) {
+	delete(env.nameToFuncID, funcKey{qualifier: pkgPath, name: funcName})
+}
+
 // GetFunc finds previously bound function searching for the `$pkgPath.$funcName` symbol.
 func (env *Env) GetFunc(pkgPath, funcName string) *Func {
 	id := env.nameToFuncID[funcKey{qualifier: pkgPath, name: funcName}]
